@@ -1,0 +1,14 @@
+//go:build verif
+// +build verif
+
+package driver
+
+import (
+	"github.com/alicebob/sqlittle"
+)
+
+// VerifStatement makes a Statement on an already opened handle (verification
+// hook, see db/verif_hooks.go).
+func VerifStatement(dbh *sqlittle.DB, q string) *Statement {
+	return &Statement{dbh: dbh, SQL: q}
+}
